@@ -281,3 +281,63 @@ def inventories(repo, T, valuation="mixed"):
             r, _t, inv = build_one(repo, T, cfg, log, valuation, facade_cls, inspect=inspect)
             res[(plat, cfg.stem, log.stem, facade_cls)] = (r, inv)
     return res
+
+
+def out_of_list_states(repo, T, valuation="mixed"):
+    """For the richest shipped (config, log) pair of every platform and both facades: every automation device the facade
+    built is read again with each of its Enum items holding a byte OUTSIDE its label list (the accessor reads 'Unknown'):
+    every read-only member (properties, __str__, __repr__) of the device is evaluated.
+    -> {(platform, cfg, log, facade): (build result, [(device key, member, 'raises ...')], members evaluated)}"""
+    best = {}
+    for _p, cfg, log in T.combos():
+        n = len(set(cfg.keys()) | set(log.keys()))
+        if n > best.get(cfg.platform, (0,))[0]:
+            best[cfg.platform] = (n, cfg, log)
+
+    def inspect(it, fac):
+        bad, n = [], 0
+        for d in list(it.getattr(fac, "all_automation_devices")):
+            if not (isinstance(d, Obj) and d.cls is not None):
+                continue
+            accs, stack, seen = [], [(d, 0)], set()
+            while stack:
+                o, dep = stack.pop()
+                if id(o) in seen:
+                    continue
+                seen.add(id(o))
+                for v in list(o.attrs.values()):
+                    if isinstance(v, Obj) and v.cls is None and str(v.name).startswith("acc<"):
+                        if v.attrs.get("type") == "Enum" and isinstance(v.attrs.get("items"), list):
+                            accs.append(v)
+                    elif isinstance(v, Obj) and v.cls is not None and dep < 1 and v is not fac:
+                        stack.append((v, dep + 1))
+            if not accs:
+                continue
+            saved = [(a, a.attrs["value"]) for a in accs]
+            for a in accs:
+                a.attrs["value"] = "Unknown"
+            try:
+                key = it.getattr(d, "key")
+                members = [nm for nm, f in repo.all_methods(d.cls).items() if f.is_property] + ["__str__", "__repr__"]
+                for nm in sorted(set(members)):
+                    f = repo.method(d.cls.short, nm, required=False)
+                    if f is None:
+                        continue
+                    n += 1
+                    try:
+                        it.steps = 0
+                        it.call(f, d, [])
+                    except PyRaise as e:
+                        bad.append((key, nm, f"raises {e.what}"))
+                    except Undecided:
+                        pass      # depends on something the model does not fix: not decided here
+            finally:
+                for a, v in saved:
+                    a.attrs["value"] = v
+        return bad, n
+    res = {}
+    for plat, (_n, cfg, log) in sorted(best.items()):
+        for facade_cls in FACADES:
+            r, _t, extra = build_one(repo, T, cfg, log, valuation, facade_cls, inspect=inspect)
+            res[(plat, cfg.stem, log.stem, facade_cls)] = (r, extra)
+    return res
